@@ -58,6 +58,9 @@ func (g *lgen) val() string {
 		if r.Intn(3) == 0 {
 			return pick(r, "1", "2") + ".${c}"
 		}
+	case 3:
+		// a qualifier that may be defined empty: the placeholder expands to nothing
+		return pick(r, "1", "2") + ".0${q}"
 	}
 	return pick(r, "1.0", "2.0", "3.1", "1.5")
 }
@@ -84,6 +87,10 @@ func (g *lgen) properties(all bool) []Prop {
 		if all || r.Intn(4) == 0 {
 			ps = append(ps, Prop{k, g.pval(i)})
 		}
+	}
+	if all || r.Intn(4) == 0 {
+		// an empty property is a definition (it may override a non-empty one of a parent, or be overridden)
+		ps = append(ps, Prop{"q", pick(r, "", "", "-SNAPSHOT", ".1", "-${d}")})
 	}
 	if r.Intn(8) == 0 {
 		ps = append(ps, Prop{"version", pick(r, "9.9", "8.8")})
@@ -487,6 +494,29 @@ func smallLineages() []*Lineage {
 			}
 		}
 	}
+	// an empty property: absent / empty / non-empty in the child, its parent and a default profile of the child
+	qv := func(k int) []Prop {
+		switch k {
+		case 1:
+			return []Prop{{"q", ""}}
+		case 2:
+			return []Prop{{"q", "-S"}}
+		}
+		return nil
+	}
+	for c := 0; c < 3; c++ {
+		for p := 0; p < 3; p++ {
+			for f := 0; f < 3; f++ {
+				child := Pom{A: "child", Parent: Key{"g", "par", "1.0"}, Props: qv(c), Deps: []Dep{{G: "g", A: "x", V: "1${q}"}},
+					Mgmt: []Dep{{G: "g", A: "y", V: "2${q}"}}}
+				child.Deps = append(child.Deps, Dep{G: "g", A: "y"})
+				if f > 0 {
+					child.Profiles = []Profile{{Abd: "true", Props: qv(f)}}
+				}
+				out = append(out, &Lineage{Root: child, Repo: []Pom{{G: "g", A: "par", V: "1.0", Packaging: "pom", Props: qv(p)}}})
+			}
+		}
+	}
 	// property precedence: child / parent / profile / built-in, bare and prefixed names
 	for _, name := range []string{"p", "version", "project.version", "groupId", "parent.version"} {
 		for mask := 0; mask < 8; mask++ {
@@ -530,6 +560,10 @@ func witnessLineages() []*Lineage {
 		single(nil, nil, []Profile{{Jdk: Jdk{Kind: 1, V: []int{1}}, Deps: []Dep{x("1")}}}, nil),
 		single(nil, nil, []Profile{{OS: OS{Family: "linux"}, Deps: []Dep{x("1")}}}, nil),
 		single([]Dep{x("${version}")}, nil, nil, []Prop{{"version", "${project.version}"}}), // prefix-aware recursion: a cycle for Maven
+		// an empty property is a definition: the child's empty suffix overrides the parent's, <qualifier/> expands to nothing
+		{Root: Pom{A: "c", V: "1", Parent: Key{"g", "q", "1"}, Props: []Prop{{"suffix", ""}, {"qualifier", ""}},
+			Deps: []Dep{x("2.5${suffix}"), {G: "g", A: "y", V: "1.0${qualifier}"}}},
+			Repo: []Pom{{G: "g", A: "q", V: "1", Packaging: "pom", Props: []Prop{{"suffix", "-SNAPSHOT"}}}}},
 	}
 }
 
